@@ -1,6 +1,9 @@
 package main
 
 import (
+	"strings"
+	"time"
+
 	"github.com/metrico/qryn/reader/logql/logql_transpiler_v2/shared"
 )
 
@@ -47,10 +50,21 @@ func (r *runner) runAll(tier, casesPath string, tail bool) {
 		name string
 		wins []window
 	}{{"A", windowsA()}, {"B", windowsB()}}
+	t0 := time.Now()
+	lap := func(name string) {
+		r.res.Stats["ms_"+name] = int(time.Since(t0).Milliseconds())
+		t0 = time.Now()
+	}
+	// the real Tail first, while the "live" lines are fresh; its statements are compared at the end
+	var tails []*tailRun
+	if tail {
+		tails = r.tailCollect(tier)
+		lap("tail")
+	}
 	// baseline: the planner fields the simplest plans write
 	for lang, qs := range map[string][]*spec{
 		"logql":   {logSpec(`{a="b"}`), logSpec(`rate({a="b"}[1m])`), logSpec(`rate({a="b"}[5s])`), logSpec(`{a="b"} | json`), fpSpec(`{a="b"}`)},
-		"traceql": {traceSpec(`{.a="b"}`, 20, 0), traceSpec(`{.a="b"}`, 20, 25_000_000), tracePortionSpec(`{.a="b"}`), tagsSpec(`{.a="b"}`), valuesSpec(`{.a="b"}`, ".a")},
+		"traceql": {traceSpec(`{.a="b"} | count() > 1`, 20, 0), traceSpec(`{.a="b"} | avg(duration) > 1s`, 20, 0), traceSpec(`{.a="b"}`, 20, 0), traceSpec(`{.a="b"}`, 20, 25_000_000), tracePortionSpec(`{.a="b"}`), tagsSpec(`{.a="b"}`), valuesSpec(`{.a="b"}`, ".a")},
 		"prof":    profSpecs(`{service_name="svc"}`),
 	} {
 		r.baseline[lang] = map[string]bool{}
@@ -84,6 +98,7 @@ func (r *runner) runAll(tier, casesPath string, tail bool) {
 		}
 	}
 	r.res.Stats["specs_planned"] = len(ok)
+	lap("reexec")
 	// pass 2: determinism, in a shuffled order, after every other query has been translated several times
 	perm := r.rng.Perm(len(ok))
 	n := 2
@@ -93,10 +108,11 @@ func (r *runner) runAll(tier, casesPath string, tail bool) {
 	for _, i := range perm {
 		r.determinism(ok[i], "A", bases[0].wins, n)
 	}
+	lap("determinism")
 	// pass 3: two plans interleaved (neighbours in the shuffled order; every third pair is the same query twice)
 	pairs := len(perm)
 	if tier != "thorough" {
-		pairs = len(perm) / 2
+		pairs = len(perm) / 3
 	}
 	for j := 0; j < pairs; j++ {
 		s1 := ok[perm[j]]
@@ -106,17 +122,20 @@ func (r *runner) runAll(tier, casesPath string, tail bool) {
 		}
 		r.interleave(s1, s2, "A", bases[0].wins)
 	}
+	lap("interleave")
 	// pass 4: portions of complex TraceQL requests against a fresh plan per portion
 	for _, s := range ok {
-		if s.Entry == "search_complex" {
+		if strings.HasPrefix(s.Entry, "search_complex") {
 			r.portions(s)
 		}
 	}
+	lap("portions")
 	if casesPath != "" {
 		r.runCases(casesPath)
 	}
 	if tail {
-		r.runTail(tier)
+		r.tailCompare(tails)
+		lap("tail_compare")
 	}
 }
 
